@@ -1482,6 +1482,24 @@ fn handle_message(
     };
 
     match parsed.method.as_deref() {
+        Some(
+            method @ ("initialized"
+            | "textDocument/didOpen"
+            | "textDocument/didChange"
+            | "textDocument/didClose"
+            | "exit"),
+        ) if parsed.id.is_some() => {
+            // Notifications don't have an id. A message with an id is
+            // a request, so the client is waiting on a response.
+            if let Some(id) = parsed.id {
+                push_error(
+                    &mut outgoing,
+                    id,
+                    ErrorCodes::InvalidRequest,
+                    format!("{method} is a notification, but this message has an id."),
+                );
+            }
+        }
         Some("initialize") => {
             if let Some(id) = parsed.id {
                 push_request_response(&mut outgoing, message, id, "initialize", handle_initialize);
